@@ -139,6 +139,28 @@ def method_calls(fn: ast.AST, attr: str) -> List[ast.Call]:
     return sorted(out, key=lambda n: (n.lineno, n.col_offset))
 
 
+def reach(repo, cls_name: str, meth: str, rule: str = 'reach') -> ast.Module:
+    """The method and the methods of its class it reaches through self-calls, as ONE tree to search for call sites in (a builder that
+    was moved into a helper method is still found)."""
+    ci, fn = repo.method(cls_name, meth, rule)
+    seen, todo, out = set(), [fn], []
+    while todo:
+        g = todo.pop(0)
+        if id(g) in seen:
+            continue
+        seen.add(id(g))
+        out.append(g)
+        for n in ast.walk(g):
+            if isinstance(n, ast.Call) and isinstance(n.func, ast.Attribute) and isinstance(n.func.value, (ast.Name, ast.Call)):
+                recv = n.func.value
+                if (isinstance(recv, ast.Name) and recv.id in ('self', 'cls')) or (isinstance(recv, ast.Call) and isinstance(recv.func, ast.Name) and recv.func.id == 'super'):
+                    for c in repo.mro(ci):
+                        if n.func.attr in c.methods and c.name.split('.')[-1] not in ('MessageInterface', 'SocketInterface'):
+                            todo.append(c.methods[n.func.attr])
+                            break
+    return ast.Module(body=out, type_ignores=[])
+
+
 def contains_call(node: ast.AST, attr: str) -> bool:
     return bool(method_calls(node, attr))
 
